@@ -36,6 +36,7 @@ TRUSTED = [
     "Coq 8.16.1 kernel + vm_compute (no native_compute); extraction with ExtrOcamlBasic only, OCaml 4.13 (ocaml/C13/numdrv.ml reader/printer)",
     "coq/C13/Model_C13.v is a hand transliteration of ECMA-262 6.1.6.1.20, 7.1.4.1.1, 21.1.3.2/.3/.5, 19.2.4/.5, 12.9.3 (+B.1.1); cross-checked on every case against gen/c13_oracle.py",
     "modelled by their specification, not verified: ryu-js (Number::toString, toFixed), fast-float2 (decimal StringToNumber, parseFloat, lexer), core::fmt float formatting, num-bigint to_f64 (lexer integers), f64 arithmetic = IEEE-754",
+    "code-level theorems (*_fixed_model_eq_spec) assume of the third-party pieces only: format!(\"{n:.767e}\") / format!(\"{:.1100}\") print the decimal expansion correctly rounded (half-even) at the requested digit, BigUint::to_f64 and `u64 as f64` round to nearest-even; that 768 digits are the complete expansion is proved (double_has_768_digits)",
     "harness/src/bin/numops.rs (observation through the public API and scripts, catch_unwind), Python driver and generators",
     "V8 (node) only to withhold an alarm of unknown class when it agrees with boa against the specification model",
 ]
@@ -565,11 +566,11 @@ def main():
     run.cov["distribution"] = dist
     t0 = time.time()
     # the code-level models of toFixed/toExponential/toPrecision expand 768 / 1100 exact digits per case: every corpus line and
-    # every 4th generated line asks for them, the others ('~' prefix) for the specification answer only
+    # every 8th generated line asks for them, the others ('~' prefix) for the specification answer only
     mlines = []
     for k, l in enumerate(lines):
         heavy = l.startswith(("exp ", "prec ", "fixed "))
-        mlines.append("~" + l if heavy and meta[k] != "corpus" and k % 4 else l)
+        mlines.append("~" + l if heavy and meta[k] != "corpus" and k % 8 else l)
     try:
         with ThreadPoolExecutor(max_workers=2) as ex:
             fi = ex.submit(run_lines, numops, lines, workers)
